@@ -132,6 +132,14 @@ def run(tier, seed, replay):
         N = 210000
         out = vlib.run_vh_raw(["tables", "ident", "0", str(N)])
         names = [l.split(" ", 1)[1] for l in out.split("\n") if l]
+        npanic = 0
+        for i, n in enumerate(names):
+            if n.startswith("!"):
+                npanic += 1
+                if npanic <= 3:
+                    ck.report({"sig": "ident-panic", "id": i, "msg": n[1:]},
+                              "the identifier allocator panics for identifier #%d (%s): no artefact can be emitted for a scope with that many declarations" % (i, n[1:120]))
+                names[i] = "zzP%d" % i
         d = os.path.join(vlib.WORK, "identchunks-%d" % os.getpid())
         os.makedirs(d, exist_ok=True)
         enc = lambda n: [ord(c) for c in n]
